@@ -33,6 +33,8 @@ type k2Batch struct {
 	Pkgs        map[string]string
 	TypeImports []string
 	ConvAnchors []string
+	// values depend on (method name, value index) only: methods of the same name and types in different converters get the same arguments
+	ValuesByMethodName bool
 }
 
 type k2Call struct {
@@ -191,6 +193,13 @@ func runK2(e *env, name string, batches []*k2Batch) (*k2Result, error) {
 					}
 					for vi := 0; vi < kb.ValModes; vi++ {
 						vg := &k2.ValGen{R: r.Fork(uint64(vi)), Mode: vi, Share: kb.Share}
+						if kb.ValuesByMethodName {
+							h := uint64(14695981039346656037)
+							for _, ch := range m.Name {
+								h = (h ^ uint64(ch)) * 1099511628211
+							}
+							vg.R = rng.New(h ^ uint64(vi)*0x9E3779B97F4A7C15 ^ e.seed)
+						}
 						var args []*sx.Node
 						var argStrs []string
 						for _, a := range m.RawArgs {
